@@ -722,6 +722,27 @@ func packagePrepareWalkFn(root string, ignoreRules *ignorefiles.Ruleset) filepat
 			}
 		}
 
+		// A symlink must spell its target relative to itself and without
+		// leaving the package on the way: the package directory is renamed
+		// once it is complete, and the finished bundle may be moved or
+		// archived. A target spelled through the directory's present name -
+		// an absolute one, or one that climbs out of the package and comes
+		// back in by name - resolves inside the package now (so it would pass
+		// the test below) and nowhere, or somewhere else, afterwards.
+		if info.Mode()&os.ModeSymlink != 0 {
+			target, err := os.Readlink(absPath)
+			if err != nil {
+				return fmt.Errorf("failed to read symlink %q: %w", relPath, err)
+			}
+			if filepath.IsAbs(target) {
+				return fmt.Errorf("module package path %q is a symlink with an absolute target", relPath)
+			}
+			fromRoot := filepath.Join(filepath.Dir(relPath), target)
+			if fromRoot == ".." || strings.HasPrefix(fromRoot, ".."+string(filepath.Separator)) {
+				return fmt.Errorf("module package path %q is symlink traversing out of the package root", relPath)
+			}
+		}
+
 		// If we get here then we have a file or directory that isn't
 		// covered by the ignore rules, but we still need to make sure it's
 		// valid for inclusion in a source bundle.
